@@ -33,6 +33,12 @@ func (l *nullListener) OnEvent(*types.Status) {
 }
 func (l *nullListener) OnError(error) bool    { atomic.AddInt64(&l.errors, 1); return true }
 
+func seg(h1, m1, h2, m2 int) types.Segment {
+	s, _ := types.HHmmFromString(fmt.Sprintf("%02d:%02d", h1, m1))
+	e, _ := types.HHmmFromString(fmt.Sprintf("%02d:%02d", h2, m2))
+	return types.Segment{Start: *s, End: *e}
+}
+
 func raceReports() int {
 	dir := os.Getenv("VERIF_RACE_DIR")
 	if dir == "" {
@@ -102,6 +108,15 @@ func streamConc(c *ctx) {
 			u := uhppote.NewUHPPOTE(types.BindAddrFrom(netip.MustParseAddr("127.0.0.1"), uint16(bind)),
 				types.BroadcastAddrFrom(bap.Addr(), bap.Port()), types.ListenAddrFrom(netip.MustParseAddr("127.0.0.1"), uint16(lport)), T, devices, false)
 
+			// values the goroutines share and hand to the library as arguments (one profile fanned out to every controller,
+			// one card, one task, one format list): the library may read them, no more
+			sharedProfile := types.TimeProfile{ID: 29, From: types.ToDate(2024, 1, 1), To: types.ToDate(2024, 12, 31),
+				Weekdays: types.Weekdays{time.Monday: true, time.Friday: true},
+				Segments: types.Segments{1: seg(8, 30, 24, 0), 2: seg(0, 0, 0, 0), 3: seg(13, 0, 24, 0), 4: seg(1, 0, 2, 0)}}
+			sharedCard := types.Card{CardNumber: 8165538, From: types.ToDate(2024, 1, 1), To: types.ToDate(2024, 12, 31), Doors: map[uint8]uint8{1: 1, 3: 29}, PIN: 7531}
+			sharedFormats := []types.CardFormat{types.Wiegand26, types.Wiegand26, types.WiegandAny}
+			sharedTask := types.Task{Task: 1, Door: 1, From: types.ToDate(2024, 1, 1), To: types.ToDate(2024, 12, 31), Weekdays: types.Weekdays{time.Monday: true}}
+			sharedCodes := append(make([]uint32, 0, 16), 1, 1000000, 7531)
 			var own, crossed, errs int64
 			var wg sync.WaitGroup
 			for g := 0; g < N; g++ {
@@ -111,6 +126,12 @@ func streamConc(c *ctx) {
 					rr := rng.New(seed)
 					for k := 0; k < K; k++ {
 						ct := ctls[rr.Intn(len(ctls))]
+						if k == 0 { // (the replies do not fit these requests: the calls fail after the exchange, which is all that is needed)
+							u.SetTimeProfile(ct.serial, sharedProfile)
+							u.PutCard(ct.serial, sharedCard, sharedFormats...)
+							u.AddTask(ct.serial, sharedTask)
+							u.SetDoorPasscodes(ct.serial, 1, sharedCodes...)
+						}
 						card := uint32(g*1000 + k + 1)
 						res, err := getCard(u, ct.serial, card)
 						switch {
@@ -181,5 +202,5 @@ func streamConc(c *ctx) {
 				fmt.Sprintf("own=%d crossed=%d err=%d races=%d%s", own, crossed, errs, races, disc), "conc/bind-"+bindMode)
 		}
 	}
-	c.w.Notes = append(c.w.Notes, "conc stream (run under the Go race detector): 8 goroutines x 5 calls (bind port 0) / 4 x 2 (fixed bind port) on ONE client against 3 UDP + 3 TCP + 1 broadcast-reached echo controllers with reply delays drawn from [0, 0.4 T); every reply is a function of its request, so a crossed reply shows; discovery (3 replies, one at T/2) and two listen start/stop cycles with 10 datagrams each run alongside")
+	c.w.Notes = append(c.w.Notes, "conc stream (run under the Go race detector): 8 goroutines x 5 calls (bind port 0) / 4 x 2 (fixed bind port) on ONE client against 3 UDP + 3 TCP + 1 broadcast-reached echo controllers with reply delays drawn from [0, 0.4 T); every reply is a function of its request, so a crossed reply shows; every goroutine also hands one shared profile, card, task, format list and passcode slice to SetTimeProfile / PutCard / AddTask / SetDoorPasscodes; discovery (3 replies, one at T/2) and two listen start/stop cycles with 10 datagrams each run alongside")
 }
